@@ -169,6 +169,10 @@ func (c *Ctx) intrinsic(fn *ssa.Function, name string, args []Value) (Value, boo
 			bs[i] = c.newInput(fmt.Sprintf("%s_%d", nm, i), c.intSort(8), 8, false)
 		}
 		return &StrVal{B: bs}, true
+	case "verifShortest":
+		// verifShortest(f float64) (neg bool, digits string, exp int): the abstract shortest decimal of f
+		sd := c.shortestDecimal(args[0].(*Term))
+		return TupleVal{sd.neg, &StrVal{B: sd.digits}, sd.exp}, true
 	case "verifAnd":
 		// verifAnd(a, b bool) bool: conjunction as a term (no fork, unlike &&)
 		return And(args[0].(*Term), args[1].(*Term)), true
@@ -450,7 +454,7 @@ func (c *Ctx) bigText(x *Term, base int, upper bool) *StrVal {
 		}
 		return c.str(t)
 	}
-	if !c.Ex.Havoc["int:text"] {
+	if !c.Ex.Havoc["int:text"] && !c.forceIntText {
 		// symbolic text is opt-in (//verif:havoc int:text): it forks on the sign and on the number of
 		// digits, which only the harnesses about the text of integers want; elsewhere the text of a
 		// symbolic integer is an opaque placeholder
@@ -521,6 +525,123 @@ func (c *Ctx) bigText(x *Term, base int, upper bool) *StrVal {
 		}
 		c.digitChars[ch] = d
 		out = append(out, ch)
+	}
+	return &StrVal{B: out}
+}
+
+// shortDec: the shortest decimal that converts back to a finite non-zero double, as an abstract
+// object: sign, 1..17 digit characters d0 d1 ... (value d0.d1d2... * 10^exp), decimal exponent.
+type shortDec struct {
+	neg    *Term
+	digits []*Term
+	exp    *Term // 64-bit integer term, -324..308
+}
+
+func (c *Ctx) shortestDecimal(f *Term) *shortDec {
+	if c.IntMode {
+		c.unsupported("shortest decimal of a float in int mode")
+	}
+	key := "short|" + f.Key()
+	if c.shortCache == nil {
+		c.shortCache = map[string]*shortDec{}
+	}
+	if sd, ok := c.shortCache[key]; ok {
+		return sd
+	}
+	n := 1 + c.choose(17, nil)
+	name := c.freshName("short")
+	sd := &shortDec{neg: FPIsNeg(f)}
+	for i := 0; i < n; i++ {
+		d := Var(fmt.Sprintf("%s_d%d", name, i), SBV(8))
+		lo := int('0')
+		if i == 0 || i == n-1 {
+			lo = '1' // no leading zero; no trailing zero (it would not be the shortest)
+		}
+		c.assume(c.byteIn(d, lo, '9'))
+		sd.digits = append(sd.digits, d)
+	}
+	x := Var(name+"_exp", SBV(64))
+	c.assume(And(BVSle(BVConst64(-324, 64), x), BVSle(x, BVConst64(308, 64))))
+	sd.exp = x
+	// tie the exponent to the magnitude of f where the layout decisions live (10^exp <= |f| < 10^(exp+1),
+	// with a relative slack of 2^-50 because the powers of ten are doubles): a counterexample's f then lies
+	// in the decade its abstract exponent says, so that its native replay takes the same layout decisions
+	af := FPAbs(f)
+	p10 := func(k int) float64 { return math.Pow(10, float64(k)) }
+	const loK, hiK = -6, 18
+	var ties []*Term
+	for k := loK; k <= hiK; k++ {
+		is := Eq(x, BVConst64(int64(k), 64))
+		ties = append(ties, Or(Not(is), And(FPLe(FPConst(p10(k)*(1-math.Ldexp(1, -50))), af), FPLt(af, FPConst(p10(k+1)*(1+math.Ldexp(1, -50)))))))
+	}
+	ties = append(ties, Or(Not(BVSlt(x, BVConst64(loK, 64))), FPLt(af, FPConst(p10(loK)*(1+math.Ldexp(1, -50))))))
+	ties = append(ties, Or(Not(BVSlt(BVConst64(hiK, 64), x)), FPLe(FPConst(p10(hiK+1)*(1-math.Ldexp(1, -50))), af)))
+	c.assume(And(ties...))
+	c.shortCache[key] = sd
+	return sd
+}
+
+// renderShortest lays the abstract shortest decimal out as strconv.FormatFloat(f, 'e' | 'f', -1, 64) does.
+func (c *Ctx) renderShortest(sd *shortDec, fm byte) *StrVal {
+	var out []*Term
+	if c.decide(sd.neg) {
+		out = append(out, c.byteT('-'))
+	}
+	n := len(sd.digits)
+	if fm == 'e' {
+		out = append(out, sd.digits[0])
+		if n > 1 {
+			out = append(out, c.byteT('.'))
+			out = append(out, sd.digits[1:]...)
+		}
+		out = append(out, c.byteT('e'))
+		ax := sd.exp
+		if c.decide(BVSlt(sd.exp, BVConst64(0, 64))) {
+			out = append(out, c.byteT('-'))
+			ax = BVNeg(sd.exp)
+		} else {
+			out = append(out, c.byteT('+'))
+		}
+		// |exp| <= 324: two digits at least, three from 100 on; 16-bit arithmetic
+		ax16 := Extract(15, 0, ax)
+		ten := BVConst64(10, 16)
+		q1 := BVUDiv(ax16, ten)
+		ds := []*Term{BVUDiv(q1, ten), BVURem(q1, ten), BVURem(ax16, ten)}
+		if !c.decide(BVUle(BVConst64(100, 16), ax16)) {
+			ds = ds[1:]
+		}
+		var chars []*Term
+		for _, d := range ds {
+			chars = append(chars, BVAdd(Extract(7, 0, d), BVConst64('0', 8)))
+		}
+		// reading these characters back as a number gives |exp| (parseDigitsSym)
+		if c.numberTexts == nil {
+			c.numberTexts = map[*Term]numberText{}
+		}
+		c.numberTexts[chars[0]] = numberText{chars: chars, val: c.bigFromInt(ax, 64, true)}
+		out = append(out, chars...)
+		return &StrVal{B: out}
+	}
+	// 'f': the layout depends on the exponent: fork over its feasible values
+	x := int(c.concretize(sd.exp, true, -324, 308, "decimal exponent of a float's text"))
+	if x < 0 {
+		out = append(out, c.byteT('0'), c.byteT('.'))
+		for i := 0; i < -x-1; i++ {
+			out = append(out, c.byteT('0'))
+		}
+		out = append(out, sd.digits...)
+		return &StrVal{B: out}
+	}
+	for i := 0; i <= x; i++ {
+		if i < n {
+			out = append(out, sd.digits[i])
+		} else {
+			out = append(out, c.byteT('0'))
+		}
+	}
+	if n > x+1 {
+		out = append(out, c.byteT('.'))
+		out = append(out, sd.digits[x+1:]...)
 	}
 	return &StrVal{B: out}
 }
@@ -939,6 +1060,20 @@ func (c *Ctx) modelGuard(ok *Term, what string) {
 
 // parseDigitsSym: value and validity of a digit string as formulas (no forking).
 func (c *Ctx) parseDigitsSym(b []*Term, base int) (*Term, *Term) {
+	if len(b) > 0 && base == 10 {
+		// exactly the decimal text a model wrote for a known value
+		if nt, ok := c.numberTexts[b[0]]; ok && len(nt.chars) == len(b) {
+			same := true
+			for i := range b {
+				if b[i] != nt.chars[i] {
+					same = false
+				}
+			}
+			if same {
+				return nt.val, True
+			}
+		}
+	}
 	acc := c.bigConst(big.NewInt(0))
 	bb := c.bigConst(big.NewInt(int64(base)))
 	valid := BoolConst(len(b) > 0)
@@ -1526,12 +1661,37 @@ func registerLibModels() {
 			c.Ex.noteModel("strconv.FormatFloat(f,'f',prec,64) -> ParseFloat: fresh result constrained by correct rounding to prec places (sign kept, |f| < 0.4*10^-prec gives zero, |f| > 0.6*10^-prec does not, |r-f| <= 0.51*10^-prec + |f|*2^-52, integral f unchanged)")
 			return &StrVal{B: c.str("<float-text>").B, FF: &floatText{F: f, Prec: int(prec)}}
 		}
+		if c.Ex.Havoc["strconv.FormatFloat:shortest"] && ok1 && (fm == 'e' || fm == 'f') && ok2 && prec == -1 && ok3 && bits == 64 {
+			c.Ex.noteModel("strconv.FormatFloat(f, 'e'|'f', -1, 64): the shortest decimal of f is abstract (1..17 digits, no leading or trailing zero digit, exponent -324..308, the same for every call on the same f); the layout of the text from it is exact")
+			if c.decide(FPEq(f, FPConst(0))) {
+				z := "0"
+				if fm == 'e' {
+					z = "0e+00"
+				}
+				if c.decide(FPIsNeg(f)) {
+					z = "-" + z
+				}
+				return c.str(z)
+			}
+			return c.renderShortest(c.shortestDecimal(f), byte(fm))
+		}
 		if c.Ex.Havoc["strconv.FormatFloat"] {
 			c.Ex.noteModel("havoc:strconv.FormatFloat")
 			return c.havocResult(fn)
 		}
 		c.unsupported("strconv.FormatFloat on a symbolic float")
 		return nil
+	}
+	m["strconv.Atoi"] = func(c *Ctx, fn *ssa.Function, a []Value) Value {
+		s := a[0].(*StrVal)
+		if cs, ok := s.concrete(); ok {
+			v, err := strconv.Atoi(cs)
+			if err != nil {
+				return TupleVal{c.goInt(int64(v)), c.mkError(c.str(err.Error()))}
+			}
+			return TupleVal{c.goInt(int64(v)), Iface{}}
+		}
+		return c.parseIntModel(s, 10, 64)
 	}
 	m["strconv.ParseFloat"] = func(c *Ctx, fn *ssa.Function, a []Value) Value {
 		s := a[0].(*StrVal)
